@@ -947,6 +947,223 @@ theorem C02_bits_training_half_step_counterexample :
     qbits .even c (-17/32) = -1/2 ∧ c.step = 1/8 := by
   refine ⟨by decide +kernel, by decide +kernel, by decide +kernel, by decide +kernel⟩
 
+/-! ## Strengthening round 4 (seed C02-12): the 1-bit SIGN formats are nearest-code projections too
+
+  `quantized_linear(bits=1, keep_negative=1)` has the two codes `±qs/2` (the shift trick of
+  `_scale_clip_and_round`: "otherwise the binary quantizer would have three output values") and
+  `quantized_bits(bits=1, keep_negative=1)` the two codes `±alpha` (`sign(x)` with `0 ↦ +1`).  The codes are one
+  step apart (`qs`, resp. `2·alpha`): every clause of the property applies to them — the output is one of
+  the two codes, in range within half a step, no code strictly closer (at EVERY input), the end code outside,
+  monotone, idempotent — and in particular **zero is never an output**. -/
+
+/-- an `Adjacent` rounding (`tf.round`, or the stochastic one with any draw) of a point of `[-1, 0]` is
+    `-1` or `0` -/
+private theorem adj_unit {ρ : ℚ → ℤ} (hρ : Adjacent ρ) {p : ℚ} (h1 : -1 ≤ p) (h2 : p ≤ 0) : ρ p = -1 ∨ ρ p = 0 := by
+  obtain ⟨a, b⟩ := hρ.mem (lo := -1) (hi := 0) (by push_cast; exact h1) (by push_cast; exact h2)
+  omega
+
+private theorem sign_clip_bounds (s : ℚ) :
+    -1 ≤ (if s < -1 / 2 then -1 / 2 else if 1 / 2 < s then 1 / 2 else s) - 1 / 2 ∧
+    (if s < -1 / 2 then -1 / 2 else if 1 / 2 < s then 1 / 2 else s) - 1 / 2 ≤ 0 := by
+  constructor <;> split <;> (try split) <;> linarith
+
+/-- THE CODE SET, under every round mode (deterministic or training draws): a 1-bit signed
+    `quantized_linear` emits `+qs/2` or `-qs/2` — two output values, never a third -/
+theorem C02_linear_sign_codes_any_round (ρ : ℚ → ℤ) (hρ : Adjacent ρ) (c : LinCfg) (h : c.signFn = true) (x : ℚ) :
+    qlinearR ρ c x = c.qs / 2 ∨ qlinearR ρ c x = -(c.qs / 2) := by
+  unfold qlinearR
+  simp only [h, if_true]
+  obtain ⟨b1, b2⟩ := sign_clip_bounds (x / c.qs)
+  rcases adj_unit hρ b1 b2 with e | e <;> rw [e]
+  · right; push_cast; ring
+  · left; push_cast; ring
+
+theorem C02_linear_sign_codes (t : Tie) (c : LinCfg) (h : c.signFn = true) (x : ℚ) :
+    qlinear t c x = c.qs / 2 ∨ qlinear t c x = -(c.qs / 2) :=
+  C02_linear_sign_codes_any_round (roundTie t) (roundTie_adjacent t) c h x
+
+theorem C02_linear_sign_codes_stoch (t : Tie) (r : RoundMode) (c : LinCfg) (h : c.signFn = true) (x : ℚ) :
+    qlinearS t r c x = c.qs / 2 ∨ qlinearS t r c x = -(c.qs / 2) :=
+  C02_linear_sign_codes_any_round (r.rho t) (RoundMode.rho_adjacent t r) c h x
+
+/-- the statement seed C02-12 breaks: `0` is not an output, whatever the input (zero included), the tie
+    rule, the round mode and the (non-zero) scale -/
+theorem C02_linear_sign_never_zero (t : Tie) (r : RoundMode) (c : LinCfg) (h : c.signFn = true) (hq : c.qs ≠ 0)
+    (x : ℚ) : qlinearS t r c x ≠ 0 ∧ qlinear t c x ≠ 0 := by
+  constructor
+  · rcases C02_linear_sign_codes_stoch t r c h x with e | e <;> rw [e] <;> intro h0 <;> apply hq <;> linarith
+  · rcases C02_linear_sign_codes t c h x with e | e <;> rw [e] <;> intro h0 <;> apply hq <;> linarith
+
+/-- strictly positive inputs take the upper code -/
+theorem C02_linear_sign_pos (t : Tie) (c : LinCfg) (h : c.signFn = true) (hq : 0 < c.qs) {x : ℚ} (hx : 0 < x) :
+    qlinear t c x = c.qs / 2 := by
+  unfold qlinear
+  simp only [h, if_true]
+  have hs : 0 < x / c.qs := div_pos hx hq
+  have hr : roundTie t ((if x / c.qs < -1 / 2 then -1 / 2 else if 1 / 2 < x / c.qs then 1 / 2 else x / c.qs) - 1 / 2)
+      = 0 := by
+    apply roundTie_small
+    rw [abs_lt]
+    constructor <;> split <;> (try split) <;> linarith
+  rw [hr]; push_cast; ring
+
+/-- strictly negative inputs take the lower code -/
+theorem C02_linear_sign_neg (t : Tie) (c : LinCfg) (h : c.signFn = true) (hq : 0 < c.qs) {x : ℚ} (hx : x < 0) :
+    qlinear t c x = -(c.qs / 2) := by
+  unfold qlinear
+  simp only [h, if_true]
+  have hs : x / c.qs < 0 := div_neg_of_neg_of_pos hx hq
+  set p := (if x / c.qs < -1 / 2 then -1 / 2 else if 1 / 2 < x / c.qs then 1 / 2 else x / c.qs) - 1 / 2 with hp
+  have hlt : p < -1 / 2 := by rw [hp]; split <;> (try split) <;> linarith
+  obtain ⟨b1, _⟩ := sign_clip_bounds (x / c.qs)
+  have hge : roundTie t ((-1 : ℤ) : ℚ) ≤ roundTie t p := roundTie_mono t (by push_cast; exact b1)
+  rw [roundTie_int] at hge
+  have he := roundTie_err t p
+  rw [abs_le] at he
+  have hle : ((roundTie t p : ℤ) : ℚ) < 0 := by linarith [he.2]
+  have hle' : roundTie t p < 0 := by exact_mod_cast hle
+  have hr : roundTie t p = -1 := by omega
+  rw [hr]; push_cast; ring
+
+/-- the input zero is the one tie of the format (both codes are half a step away): `tf.round`
+    (half to even, `round(-1/2) = 0`) takes the UPPER code -/
+theorem C02_linear_sign_zero_even (c : LinCfg) (h : c.signFn = true) : qlinear .even c 0 = c.qs / 2 := by
+  unfold qlinear
+  simp only [h, if_true, zero_div]
+  have hr : roundTie .even ((if (0 : ℚ) < -1 / 2 then -1 / 2 else if (1 : ℚ) / 2 < 0 then 1 / 2 else 0) - 1 / 2) = 0 := by
+    have : ((if (0 : ℚ) < -1 / 2 then -1 / 2 else if (1 : ℚ) / 2 < 0 then 1 / 2 else 0) - 1 / 2 : ℚ) = -1 / 2 := by
+      norm_num
+    rw [this]; decide +kernel
+  rw [hr]; push_cast; ring
+
+/-- in range (`-qs/2 ≤ x ≤ qs/2`) within half a step `qs` of the input -/
+theorem C02_linear_sign_nearest (t : Tie) (c : LinCfg) (h : c.signFn = true) (hq : 0 < c.qs) (x : ℚ)
+    (h1 : -(c.qs / 2) ≤ x) (h2 : x ≤ c.qs / 2) : |qlinear t c x - x| ≤ c.qs / 2 := by
+  rcases lt_trichotomy x 0 with hx | hx | hx
+  · rw [C02_linear_sign_neg t c h hq hx, abs_le]; constructor <;> linarith
+  · rcases C02_linear_sign_codes t c h x with e | e <;> rw [e, hx, abs_le] <;> constructor <;> linarith
+  · rw [C02_linear_sign_pos t c h hq hx, abs_le]; constructor <;> linarith
+
+/-- at EVERY input neither code is strictly closer than the output -/
+theorem C02_linear_sign_is_code_nearest (t : Tie) (c : LinCfg) (h : c.signFn = true) (hq : 0 < c.qs) (x : ℚ) :
+    |qlinear t c x - x| ≤ |c.qs / 2 - x| ∧ |qlinear t c x - x| ≤ |-(c.qs / 2) - x| := by
+  rcases lt_trichotomy x 0 with hx | hx | hx
+  · rw [C02_linear_sign_neg t c h hq hx]
+    refine ⟨?_, le_refl _⟩
+    rw [abs_le]; constructor
+    · have := neg_abs_le (c.qs / 2 - x); rw [abs_of_pos (by linarith : 0 < c.qs / 2 - x)] at this ⊢; linarith
+    · rw [abs_of_pos (by linarith : 0 < c.qs / 2 - x)]; linarith
+  · rcases C02_linear_sign_codes t c h x with e | e <;> rw [e, hx] <;> simp [abs_neg]
+  · rw [C02_linear_sign_pos t c h hq hx]
+    refine ⟨le_refl _, ?_⟩
+    rw [abs_of_neg (by linarith : -(c.qs / 2) - x < 0), abs_le]; constructor <;> linarith
+
+/-- outside the range the end code -/
+theorem C02_linear_sign_saturate (t : Tie) (c : LinCfg) (h : c.signFn = true) (hq : 0 < c.qs) (x : ℚ) :
+    (c.qs / 2 ≤ x → qlinear t c x = c.qs / 2) ∧ (x ≤ -(c.qs / 2) → qlinear t c x = -(c.qs / 2)) :=
+  ⟨fun hx => C02_linear_sign_pos t c h hq (by linarith), fun hx => C02_linear_sign_neg t c h hq (by linarith)⟩
+
+/-- monotone non-decreasing -/
+theorem C02_linear_sign_mono (t : Tie) (c : LinCfg) (h : c.signFn = true) (hq : 0 < c.qs) {x y : ℚ} (hxy : x ≤ y) :
+    qlinear t c x ≤ qlinear t c y := by
+  rcases lt_or_ge x 0 with hx | hx
+  · rw [C02_linear_sign_neg t c h hq hx]
+    rcases C02_linear_sign_codes t c h y with e | e <;> rw [e] <;> linarith
+  · rcases lt_or_eq_of_le hx with hx' | hx'
+    · rw [C02_linear_sign_pos t c h hq hx', C02_linear_sign_pos t c h hq (lt_of_lt_of_le hx' hxy)]
+    · rcases lt_or_eq_of_le hxy with hlt | heq
+      · rw [C02_linear_sign_pos t c h hq (by linarith : 0 < y)]
+        rcases C02_linear_sign_codes t c h x with e | e <;> rw [e] <;> linarith
+      · rw [heq]
+
+/-- both codes are fixed points: re-quantizing an output returns it -/
+theorem C02_linear_sign_idem (t : Tie) (c : LinCfg) (h : c.signFn = true) (hq : 0 < c.qs) (x : ℚ) :
+    qlinear t c (qlinear t c x) = qlinear t c x := by
+  rcases C02_linear_sign_codes t c h x with e | e <;> rw [e]
+  · exact C02_linear_sign_pos t c h hq (by linarith)
+  · exact C02_linear_sign_neg t c h hq (by linarith)
+
+/-- the flagged 1-bit quantizer in a deterministic round mode (learning phase off, or flag off) satisfies
+    all clauses, for every draw -/
+theorem C02_linear_sign_stoch_inference (t : Tie) (r r' : RoundMode) (hd : r.Det) (hd' : r'.Det)
+    (c : LinCfg) (h : c.signFn = true) (hq : 0 < c.qs) (x : ℚ) :
+    (-(c.qs / 2) ≤ x → x ≤ c.qs / 2 → |qlinearS t r c x - x| ≤ c.qs / 2) ∧
+    (c.qs / 2 ≤ x → qlinearS t r c x = c.qs / 2) ∧
+    (x ≤ -(c.qs / 2) → qlinearS t r c x = -(c.qs / 2)) ∧
+    (∀ y, x ≤ y → qlinearS t r c x ≤ qlinearS t r' c y) ∧
+    qlinearS t r' c (qlinearS t r c x) = qlinearS t r c x := by
+  simp only [C02_linear_inference t r hd, C02_linear_inference t r' hd']
+  exact ⟨C02_linear_sign_nearest t c h hq x, (C02_linear_sign_saturate t c h hq x).1,
+    (C02_linear_sign_saturate t c h hq x).2, fun y hxy => C02_linear_sign_mono t c h hq hxy,
+    C02_linear_sign_idem t c h hq x⟩
+
+/-- histories on ONE 1-bit object (calls, reporter reads, `symmetric` / `alpha` assignments,
+    `_set_trainable_parameter()`, data-dependent scales): the call emits one of the two codes of the scale IN
+    FORCE, the one on the input's side, never zero -/
+theorem C02_hist_linear_sign (t : Tie) (s0 : LinSt) (h : List (HStep LinEv Ask)) (x p : ℚ)
+    (hsf : ((linSpec t).final s0 h).cfg.signFn = true) (hq : 0 < ((linSpec t).final s0 h).effective.qs) :
+    ∃ y : ℚ, (linSpec t).answer ((linSpec t).final s0 h) (.call x p) = .val y ∧
+      (y = ((linSpec t).final s0 h).effective.qs / 2 ∨ y = -(((linSpec t).final s0 h).effective.qs / 2)) ∧
+      y ≠ 0 ∧ (0 < x → y = ((linSpec t).final s0 h).effective.qs / 2) ∧
+      (x < 0 → y = -(((linSpec t).final s0 h).effective.qs / 2)) := by
+  have hs' : ((linSpec t).final s0 h).effective.signFn = true := by rw [LinSt.effective_signFn]; exact hsf
+  refine ⟨_, rfl, C02_linear_sign_codes t _ hs' x, ?_, fun hx => C02_linear_sign_pos t _ hs' hq hx,
+    fun hx => C02_linear_sign_neg t _ hs' hq hx⟩
+  exact (C02_linear_sign_never_zero t { stoch := false, phase := false, u := 0, u2 := 0 } _ hs' hq.ne' x).2
+
+/-! ### `quantized_bits(bits=1, keep_negative=1)`: `alpha · sign(x)`, `sign(0) = +1` -/
+
+/-- closed form of the 1-bit branch, every round mode (it never reaches `_round_through`) -/
+theorem C02_bits_sign_eq (t : Tie) (r : RoundMode) (c : BitsCfg) (h : ¬ 0 < c.ub) (hk : c.keepNeg = true) (x : ℚ) :
+    qbits t c x = c.gain * signPM x ∧ qbitsS t r c x = c.gain * signPM x := by
+  unfold qbitsS qbitsR qbits
+  simp only [if_neg h, hk, if_true, and_self]
+
+/-- two codes `±alpha`; zero is never an output -/
+theorem C02_bits_sign_codes (t : Tie) (c : BitsCfg) (h : ¬ 0 < c.ub) (hk : c.keepNeg = true) (x : ℚ) :
+    (qbits t c x = c.gain ∨ qbits t c x = -c.gain) ∧ (c.gain ≠ 0 → qbits t c x ≠ 0) := by
+  rw [(C02_bits_sign_eq t { stoch := false, phase := false, u := 0, u2 := 0 } c h hk x).1]
+  unfold signPM
+  split
+  · exact ⟨Or.inr (by ring), fun hg h0 => hg (by linarith)⟩
+  · exact ⟨Or.inl (by ring), fun hg h0 => hg (by linarith)⟩
+
+/-- the unscaled quantizer: in range `[-1, 1]` within half the code distance (`1`), no code strictly closer at
+    any input, the end code outside, zero goes to `+1` -/
+theorem C02_bits_sign_nearest (t : Tie) (c : BitsCfg) (h : ¬ 0 < c.ub) (hk : c.keepNeg = true) (hg : c.gain = 1)
+    (x : ℚ) :
+    (-1 ≤ x → x ≤ 1 → |qbits t c x - x| ≤ 1) ∧
+    (|qbits t c x - x| ≤ |1 - x| ∧ |qbits t c x - x| ≤ |-1 - x|) ∧
+    (0 ≤ x → qbits t c x = 1) ∧ (x < 0 → qbits t c x = -1) := by
+  rw [(C02_bits_sign_eq t { stoch := false, phase := false, u := 0, u2 := 0 } c h hk x).1, hg, one_mul]
+  unfold signPM
+  rcases lt_or_ge x 0 with hx | hx
+  · rw [if_pos hx]
+    refine ⟨fun h1 h2 => by rw [abs_le]; constructor <;> linarith, ⟨?_, le_refl _⟩, fun h0 => by linarith, fun _ => rfl⟩
+    rw [abs_of_pos (by linarith : (0 : ℚ) < 1 - x), abs_le]; constructor <;> linarith
+  · rw [if_neg (not_lt.mpr hx)]
+    refine ⟨fun h1 h2 => by rw [abs_le]; constructor <;> linarith, ⟨le_refl _, ?_⟩, fun _ => rfl, fun h0 => by linarith⟩
+    rw [abs_of_neg (by linarith : (-1 : ℚ) - x < 0), abs_le]; constructor <;> linarith
+
+/-- idempotent for EVERY positive constant scale (the sign of `±alpha` is the sign of the code) -/
+theorem C02_bits_sign_idem (t : Tie) (c : BitsCfg) (h : ¬ 0 < c.ub) (hk : c.keepNeg = true) (hg : 0 < c.gain) (x : ℚ) :
+    qbits t c (qbits t c x) = qbits t c x := by
+  have e := fun y => (C02_bits_sign_eq t { stoch := false, phase := false, u := 0, u2 := 0 } c h hk y).1
+  rw [e (qbits t c x), e x]
+  unfold signPM
+  split
+  · rw [if_pos (by nlinarith)]
+  · rw [if_neg (by nlinarith)]
+
+/-- what a sign function with `sign(0) = 0` (`tf.sign` without the `+ (1 - |sign|)` repair, or `0.5 * sign`
+    instead of the shift-clip-round sequence) would emit at zero is NOT a code of either format: the model's
+    answers at the input `0` are the upper codes -/
+theorem C02_sign_at_zero_witness :
+    qlinear .even { bits := 1, integer := 0, symmetric := true, keepNeg := true, alpha := none } 0 = 1 / 2 ∧
+    qlinear .even { bits := 1, integer := 2, symmetric := false, keepNeg := true, alpha := some (1/2) } 0 = 1 ∧
+    qbits .even { bits := 1, integer := 0, symmetric := false, keepNeg := true, alpha := some 2 } 0 = 2 := by
+  refine ⟨by decide +kernel, by decide +kernel, by decide +kernel⟩
+
 /-! ## non-vacuity -/
 
 example : let c : BitsCfg := { bits := 4, integer := 0, symmetric := false, keepNeg := true, alpha := none }
